@@ -317,6 +317,19 @@ fn exact(rep: &mut Report) {
                 let bb = b2 * b2;
                 same_slice(ctx, &key("compose/Basis2/angles-add"), &flat_m(basis2_arr(bb)), &flat_m(model::rot2(cs2)));
                 same_slice(ctx, &key("compose/Basis2/r*invert(r)=one"), &flat_m(basis2_arr(b2 * Rotation::invert(&b2))), &flat_m(model::mident::<T, 2>()));
+                // two different angles, either order, and the identity on either side (a product that is right for equal
+                // factors - r*r, r*invert(r) - need not be right for unequal ones)
+                for k2 in [1i64, -2, 3] {
+                    if (k + k2).abs() > lat.reach() {
+                        continue;
+                    }
+                    let b2b: Basis2<T> = Rotation2::from_angle(Rad(T::int(k2)));
+                    let want12 = model::rot2(ex::lattice_cs(k + k2));
+                    same_slice(ctx, &key("compose/Basis2/angles-add/unequal"), &flat_m(basis2_arr(b2 * b2b)), &flat_m(want12));
+                    same_slice(ctx, &key("compose/Basis2/angles-add/unequal"), &flat_m(basis2_arr(b2b * b2)), &flat_m(want12));
+                }
+                same_slice(ctx, &key("compose/Basis2/one-is-neutral"), &flat_m(basis2_arr(b2 * Basis2::one())), &flat_m(want2));
+                same_slice(ctx, &key("compose/Basis2/one-is-neutral"), &flat_m(basis2_arr(Basis2::one() * b2)), &flat_m(want2));
                 same_slice(ctx, &key("rotate_point/Basis2"), &p2(b2.rotate_point(mk_p2([T::int(3), T::q(-1, 2)]))), &v2(b2.rotate_vector(mk_v2([T::int(3), T::q(-1, 2)]))));
             },
         );
